@@ -297,7 +297,7 @@ def main(argv=None):
         print("not reproduced")
         return 0
     quick = a.tier == "quick"
-    ev = common.Evidence(PROP, a.tier, a.seed, "exploration", "seeded login histories: 1..5 concurrent sessions (real client login() with matching / mismatching encodings; raw peers with verb spellings pass/PASS/PaSs, PASS first / twice / after login / followed by a reset, double separator), right and wrong passwords, unknown users, per-user connection limits; password strings from long random tokens with blanks, format directives, non-ASCII and single unusual characters; all records of aioftp.client / aioftp.server / asyncio / root at DEBUG (formatted message + traceback + args) and the loop's exception handler are searched for every supplied password and its variants; non-trivial = at least one PASS was sent and records were captured; distinct = distinct run digests")
+    ev = common.Evidence(PROP, a.tier, a.seed, "exploration", "seeded login histories: 1..5 concurrent sessions (real client login() with matching / mismatching encodings; raw peers with verb spellings pass/PASS/PaSs, PASS first / twice / after login / followed by a reset, double separator), right and wrong passwords, unknown users, per-user connection limits; password strings from long random tokens with blanks, format directives, non-ASCII and single unusual characters; all records of aioftp.client / aioftp.server / asyncio / root at DEBUG (formatted message + traceback + args) and the loop's exception handler are searched for every supplied password and its variants; non-trivial = at least one PASS was sent and records were captured; distinct = distinct run digests About a tenth of the cases contain a password longer than the 64 KiB line limit.")
     rep = common.Reporter(PROP, ev)
     deadline = time.time() + (a.budget or (60 if quick else 1200))
     n = 4000 if quick else 500000
